@@ -48,6 +48,7 @@ type c19cfg struct {
 	prefixExhaustive bool
 	dumpLen int
 	periodic bool
+	size    int // configured cache size (0 = default; below 1024 the capacity is still 1024)
 	big     int // >0: every answer is padded to about this many bytes (blocks of 128 entries grow past the block size limit)
 }
 
@@ -63,6 +64,8 @@ func c19Setup(rc *RunCtx) simrt.Config {
 	c.enospc = c.via == 0 && r.Choose(4) == 0
 	c.flips = []int{0, 1, 3, 16}[r.Choose(4)]
 	c.periodic = r.Choose(8) == 0
+	c.size = []int{4096, 4096, 0, 64, 256}[r.Choose(5)]
+	rc.Cfg["size"] = c.size
 	if !c.periodic && r.Choose(10) == 0 {
 		c.big = []int{4500, 9000, 20000, 60000}[r.Choose(4)]
 		c.n = []int{20, 100, 128, 130, 200}[r.Choose(5)]
@@ -256,7 +259,7 @@ func c19Main(rc *RunCtx) {
 	simrt.CreateHook = disk.Create
 	simrt.OpenHook = disk.Open
 	mk := func(file string) *cacheplug.Cache {
-		return cacheplug.NewCache(&cacheplug.Args{Size: 4096, LazyCacheTTL: c.lazy, DumpFile: file, DumpInterval: 36000}, cacheplug.Opts{})
+		return cacheplug.NewCache(&cacheplug.Args{Size: c.size, LazyCacheTTL: c.lazy, DumpFile: file, DumpInterval: 36000}, cacheplug.Opts{})
 	}
 	adv := func() {
 		var d time.Duration
